@@ -5,6 +5,7 @@ import Pyxv.Model.OpsChannel
 import Pyxv.Model.OpsTexts
 import Pyxv.Model.OpsProcess
 import Pyxv.Model.OpsBinds
+import Pyxv.Model.OpsBindsRefs
 import Pyxv.Model.OpsChoices
 import Pyxv.Model.OpsEntities
 import Pyxv.Model.OpsSettings
@@ -29,7 +30,7 @@ Driver: one JSON request per line on stdin, one JSON reply per line on stdout.
 open Lean Pyxv
 
 def handlers : List (String → Json → Option (Except String Json)) :=
-  [Xml.opsXml, Form.opsForm, Validator.opsValidator, Chan.opsChannel, Texts.opsTexts, Process.opsProcess, Binds.opsBinds, Choices.opsChoices, Entities.opsEntities, Settings.opsSettings, Refs.opsRefs, Warn.opsWarn, Lexer.opsLexer, Defaults.opsDefaults, Backends.opsBackends, Itext.opsItext, JV.opsJVal, ToJson.opsToJson, ToJson.opsFromJsonChoices, Asm.opsAsm, Spell.opsSpell, Rows17.opsC17, Controls.opsControls, Convert.opsConvert]
+  [Xml.opsXml, Form.opsForm, Validator.opsValidator, Chan.opsChannel, Texts.opsTexts, Process.opsProcess, Binds.opsBinds, Choices.opsChoices, Entities.opsEntities, Settings.opsSettings, Refs.opsRefs, Warn.opsWarn, Lexer.opsLexer, Defaults.opsDefaults, Backends.opsBackends, Itext.opsItext, JV.opsJVal, ToJson.opsToJson, ToJson.opsFromJsonChoices, Asm.opsAsm, Spell.opsSpell, Rows17.opsC17, Controls.opsControls, Convert.opsConvert, Binds.opsBindsRefs]
 
 def dispatch (op : String) (j : Json) : Except String Json :=
   let rec go : List (String → Json → Option (Except String Json)) → Except String Json
